@@ -1,7 +1,7 @@
 #!/bin/bash
 # tools/run_seeds.sh  -- apply every kept seeded change to /repo in turn, run the check of its property, undo it; prints one line per change
 cd /verif
-for d in seeded/*/; do
+for d in seeded/C*/; do
   id=$(basename $d); p=${id%%-*}
   git -C /repo apply /verif/$d/patch.diff 2>/dev/null || { echo "$id patch-does-not-apply"; continue; }
   out=$(./check $p --no-evidence 2>&1); rc=$?
